@@ -433,6 +433,10 @@ func checkBytes(op string, rval, cval []byte) bool {
 			if rval[i] < cval[i] {
 				return true
 			}
+
+			if rval[i] > cval[i] {
+				return false
+			}
 		}
 
 		return len(rval) < len(cval)
@@ -440,6 +444,10 @@ func checkBytes(op string, rval, cval []byte) bool {
 		for i := 0; i < len(rval) && i < len(cval); i++ {
 			if rval[i] > cval[i] {
 				return false
+			}
+
+			if rval[i] < cval[i] {
+				return true
 			}
 		}
 
@@ -449,6 +457,10 @@ func checkBytes(op string, rval, cval []byte) bool {
 			if rval[i] > cval[i] {
 				return true
 			}
+
+			if rval[i] < cval[i] {
+				return false
+			}
 		}
 
 		return len(rval) > len(cval)
@@ -456,6 +468,10 @@ func checkBytes(op string, rval, cval []byte) bool {
 		for i := 0; i < len(rval) && i < len(cval); i++ {
 			if rval[i] < cval[i] {
 				return false
+			}
+
+			if rval[i] > cval[i] {
+				return true
 			}
 		}
 
